@@ -276,14 +276,8 @@ func (s *ldapService) Handle(ctx context.Context, conn net.Conn) error {
 			}
 		}
 
-		if s.wantTLS {
-			s.wantTLS = false
-			if err := s.StartTLS(s.tlsConfig); err != nil {
-				return err
-			}
-		}
-
-		// Send Message Data
+		// Send Message Data (before a TLS handshake is started: the request has been
+		// answered, and is reported also when the handshake never completes)
 		s.c.Send(event.New(
 			services.EventOptions,
 			event.Category("ldap"),
@@ -291,6 +285,13 @@ func (s *ldapService) Handle(ctx context.Context, conn net.Conn) error {
 			event.DestinationAddr(conn.LocalAddr()),
 			event.CopyFrom(elog),
 		))
+
+		if s.wantTLS {
+			s.wantTLS = false
+			if err := s.StartTLS(s.tlsConfig); err != nil {
+				return err
+			}
+		}
 
 	}
 	return nil
